@@ -373,9 +373,47 @@ class TrAcc(TrProc):
                 out += TrProc.mutated(self, [s])
         return list(dict.fromkeys(out))
 
+    @staticmethod
+    def isna_field(t):
+        """`pd.isna(self.F)` -> F"""
+        if isinstance(t, ast.Call) and isinstance(t.func, ast.Attribute) and t.func.attr == "isna" and isinstance(t.func.value, ast.Name) \
+                and t.func.value.id == "pd" and len(t.args) == 1 and isinstance(t.args[0], ast.Attribute) \
+                and isinstance(t.args[0].value, ast.Name) and t.args[0].value.id == "self":
+            return t.args[0].attr
+        return None
+
     def expr(self, e):
         if isinstance(e, ast.Constant) and e.value == "":
             return [], "([] : Str)"
+        if isinstance(e, ast.Attribute) and isinstance(e.value, ast.Name) and e.value.id == "self" and e.attr in getattr(self, "bound", {}):
+            return [], self.bound[e.attr]
+        if isinstance(e, ast.IfExp):
+            t, neg = e.test, False
+            if isinstance(t, ast.UnaryOp) and isinstance(t.op, ast.Not):
+                t, neg = t.operand, True
+            fld = self.isna_field(t)
+            if fld is not None and fld in self.self_fields:
+                # `A if not pd.isna(self.F) else B`: a missing value is `none`; inside A, `self.F` is the value that is present
+                present, absent = (e.body, e.orelse) if neg else (e.orelse, e.body)
+                saved = dict(getattr(self, "bound", {}))
+                self.bound = dict(saved)
+                self.bound[fld] = fld + "_"
+                b1, pt = self.expr(present)
+                self.bound = saved
+                b2, at = self.expr(absent)
+                if b1 or b2:
+                    raise Unsupported("raising branch of a conditional expression")
+                return [], "(match self.%s with | some %s_ => %s | none => %s)" % (self.self_fields[fld], fld, pt, at)
+            b0, c = self.expr(e.test)
+            b1, a = self.expr(e.body)
+            b2, o = self.expr(e.orelse)
+            if b0 or b1 or b2:
+                raise Unsupported("raising part of a conditional expression")
+            return [], "(if %s then %s else %s)" % (c, a, o)
+        if isinstance(e, ast.Compare) and len(e.ops) == 1 and isinstance(e.ops[0], ast.Is) and isinstance(e.comparators[0], ast.Constant) \
+                and e.comparators[0].value is True:
+            b, a = self.expr(e.left)
+            return b, "(decide (%s = true))" % a
         if isinstance(e, ast.Name) and e.id in self.consts:
             return [], chars(self.consts[e.id])
         if isinstance(e, ast.Dict) and all(isinstance(k, ast.Constant) and isinstance(k.value, str) for k in e.keys) \
@@ -506,6 +544,27 @@ def main():
             out.append("/-- `UANodeId.json_encode` -/")
             out.append("def nodeid_json_encode (self : NodeId) : Except PyErr Str :=")
             out.append(TrAcc(nid, consts, enums, meths).stmts(f.body, 1, ".error .typeError"))
+            qn = {"namespace_index": "ns", "name": "name"}
+            out.append("")
+            f = find(dt, "UAQualifiedName.xml_encode")
+            out.append("/-- `UAQualifiedName.xml_encode` -/")
+            out.append("def qname_xml_encode (self : QName) (%s : Bool) : Except PyErr Str :=" % f.args.args[1].arg)
+            out.append(TrAcc(qn, consts, enums, {}).stmts(f.body, 1, ".error .typeError"))
+            f = find(dt, "UAQualifiedName.json_encode")
+            out.append("/-- `UAQualifiedName.json_encode` -/")
+            out.append("def qname_json_encode (self : QName) : Except PyErr Str :=")
+            out.append(TrAcc(qn, consts, enums, {}).stmts(f.body, 1, ".error .typeError"))
+            out.append("")
+            for cls, kind in (("UASByte", "sbyte"), ("UAByte", "byte"), ("UAInt16", "int16"), ("UAUInt16", "uint16"),
+                              ("UAInt32", "int32"), ("UAUInt32", "uint32"), ("UAInt64", "int64"), ("UAUInt64", "uint64")):
+                f = find(dt, cls + ".xml_encode")
+                out.append("/-- `%s.xml_encode`; a missing value (`pd.NA`) is `none` -/" % cls)
+                out.append("def int_xml_encode_%s (self : IntVal) (%s : Bool) : Except PyErr Str :=" % (kind, f.args.args[1].arg))
+                out.append(TrAcc({"value": "value"}, consts, enums, {}).stmts(f.body, 1, ".error .typeError"))
+            f = find(dt, "UABoolean.xml_encode")
+            out.append("/-- `UABoolean.xml_encode`; a missing value (`pd.NA`) is `none` -/")
+            out.append("def bool_xml_encode (self : BoolVal) (%s : Bool) : Except PyErr Str :=" % f.args.args[1].arg)
+            out.append(TrAcc({"value": "value"}, consts, enums, {}).stmts(f.body, 1, ".error .typeError"))
     except Unsupported as u:
         print("UNSUPPORTED: %s" % u, file=sys.stderr)
         sys.exit(3)
